@@ -142,11 +142,17 @@ def run(res, tier, build_ok):
             for meth, kw in calls:
                 sense = sense_buf(rng)
                 state["status"], state["sense"] = status, sense
+                del iscsi.LOG[:]
+                del sgio.CALLS[:]
                 try:
                     cmd = getattr(fac, meth)(**kw)
                     out, exc = "returned", None
                 except Exception as e:
                     cmd, out, exc = None, "raised:" + type(e).__name__, e
+                nsent = len([e for e in iscsi.LOG if e[0] == "command"]) if kind == "iscsi" else len(sgio.CALLS)
+                if nsent != 1:
+                    res.violation("facade=%s transport=%s sends=%d" % (meth, kind, nsent), "facade %s sent %d commands for one call (status %#x)" % (meth, nsent, status),
+                                  {"status": status, "sent": nsent})
                 res.case(("facade", kind, meth, status), {"transport": kind, "facade": meth, "status": hex(status), "outcome": out})
                 res.count("facade " + kind)
                 raw = meth.startswith("atapassthrough")
@@ -160,6 +166,22 @@ def run(res, tier, build_ok):
                     if name != want:
                         res.violation("facade=%s transport=%s status=%#x" % (meth, kind, status),
                                       "facade %s over %s: status %#x surfaced as %s, expected %s" % (meth, kind, status, name, want), {"status": status, "outcome": out})
+    # CHECK CONDITION without any sense data over iSCSI: still an error, still exactly one send
+    state["status"], state["sense"] = 0, None
+    fac = SCSI(idev, 512)
+    idev.opcodes = sets["sbc"]
+    for meth, kw in (("testunitready", {}), ("write10", {"lba": 0, "tl": 1, "data": bytearray(512)}), ("readcapacity10", {})):
+        state["status"], state["sense"] = 2, None
+        del iscsi.LOG[:]
+        try:
+            getattr(fac, meth)(**kw)
+            out = "returned"
+        except Exception as e:
+            out = "raised:" + type(e).__name__
+        nsent = len([e for e in iscsi.LOG if e[0] == "command"])
+        res.case(("facade-nosense", meth), {"facade": meth, "status": "CHECK CONDITION without sense", "outcome": out, "sent": nsent})
+        if out == "returned" or nsent != 1:
+            res.violation("facade=%s iscsi CHECK CONDITION without sense" % meth, "CHECK CONDITION without sense data: %s, %d commands sent" % (out, nsent), {"facade": meth, "outcome": out, "sent": nsent})
     reps = drv.batch([r[0] for r in reqs])
     for (line, impl, what), rep in zip(reqs, reps):
         parts = rep.split(" ")
